@@ -177,6 +177,32 @@ pub fn build_world(net: &str, k: usize) -> Result<World, String> {
     })
 }
 
+/// A graph whose symbolic context does NOT give every network variable the same number of spare
+/// copies (built by hand with SymbolicContext::with_extra_state_variables, as the API allows):
+/// `poor_first` = the first variable gets exactly k copies and every other one k + 2; otherwise the
+/// last variable gets k and the others k + 2.  The number of usable spare sets is k.
+pub fn build_world_nonuniform(net: &str, k: usize, poor_first: bool) -> Result<World, String> {
+    let bn = load_network(net)?;
+    let vars: Vec<_> = bn.variables().collect();
+    let mut extra = HashMap::new();
+    for (i, v) in vars.iter().enumerate() {
+        let poor = if poor_first { i == 0 } else { i + 1 == vars.len() };
+        extra.insert(*v, if poor { k as u16 } else { (k + 2) as u16 });
+    }
+    let ctx = SymbolicContext::with_extra_state_variables(&bn, &extra)?;
+    let unit = ctx.mk_constant(true);
+    let graph = SymbolicAsyncGraph::with_custom_context(&bn, ctx, unit)?;
+    let order_pn = model_order(graph.symbolic_context(), false);
+    let order_full = model_order(graph.symbolic_context(), true);
+    Ok(World {
+        bn,
+        graph,
+        k,
+        order_pn,
+        order_full,
+    })
+}
+
 impl World {
     pub fn p(&self) -> usize {
         self.graph.symbolic_context().num_parameter_variables()
@@ -462,13 +488,57 @@ fn run_eval(fields: &[&str], cases: &mut impl Write, out: &mut impl Write) {
     let id = fields[1];
     let mode = fields[2];
     let k: usize = fields[3].parse().unwrap();
-    let w = match build_world(fields[4], k) {
+    let built = if mode.contains('N') {
+        build_world_nonuniform(fields[4], k, true)
+    } else if mode.contains('M') {
+        build_world_nonuniform(fields[4], k, false)
+    } else {
+        build_world(fields[4], k)
+    };
+    let mut w = match built {
         Ok(w) => w,
         Err(e) => {
             writeln!(out, "{id} SKIP network:{}", e.replace(['\t', '\n'], " ")).unwrap();
             return;
         }
     };
+    let mut state_restricted = false;
+    if mode.contains('K') || mode.contains('S') {
+        // a graph whose unit set the user has narrowed with SymbolicAsyncGraph::restrict:
+        // 'K' to a pseudo-random set of colours (still a colour-only unit, as the model assumes),
+        // 'S' to the states forward-reachable from one state (outside the model: implementation only)
+        let seed = id.bytes().fold(7u64, |a, b| a.wrapping_mul(131).wrapping_add(b as u64));
+        let unit = w.graph.mk_unit_colored_vertices();
+        let narrowed = if mode.contains('K') {
+            let mut rng = Rng::new(seed);
+            let p = w.p();
+            let mut keep = w.graph.mk_empty_colored_vertices();
+            let mut remaining = w.graph.mk_unit_colors();
+            let mut guard = 0;
+            while !remaining.is_empty() && guard < (1usize << p.min(10)) {
+                let c = remaining.pick_singleton();
+                remaining = remaining.minus(&c);
+                if rng.below(3) < 2 {
+                    keep = keep.union(&unit.intersect_colors(&c));
+                }
+                guard += 1;
+            }
+            if keep.is_empty() { unit.clone() } else { keep }
+        } else {
+            state_restricted = true;
+            let start = unit.pick_vertex();
+            let mut reach = start.clone();
+            loop {
+                let next = reach.union(&w.graph.post(&reach));
+                if next == reach {
+                    break;
+                }
+                reach = next;
+            }
+            reach
+        };
+        w.graph = w.graph.restrict(&narrowed);
+    }
     let ext = mode.contains('e');
     let sanitize = mode.contains('s');
     let formulas: Vec<String> = split_list(fields[6]).iter().map(|h| unhex(h)).collect();
@@ -503,6 +573,9 @@ fn run_eval(fields: &[&str], cases: &mut impl Write, out: &mut impl Write) {
 
     // the case line for the model
     let (names, upd, unit) = w.describe();
+    if state_restricted {
+        model_ok = false;
+    }
     if model_ok {
         writeln!(
             cases,
